@@ -279,8 +279,9 @@ Definition element_intersects (a : fixarr) (s : shape) (i : nat) : option (optio
     end.
 
 (* ------------------------------------------------------------------ *)
-(* what the correspondence check evaluates: the three forms at once.
-   inds must address existing slots (numba does not bounds-check). *)
+(* inds must address existing slots (numba does not bounds-check); the
+   correspondence check (Model/PointShapeHarness.v) evaluates the three forms
+   under this guard *)
 Definition inds_ok (n : nat) (inds : list nat) : bool := forallb (fun j => Nat.ltb j n) inds.
 
 Fixpoint all_some {A} (l : list (option A)) : option (list A) :=
@@ -289,13 +290,3 @@ Fixpoint all_some {A} (l : list (option A)) : option (list A) :=
   | Some a :: t => match all_some t with Some r => Some (a :: r) | None => None end
   | None :: _ => None
   end.
-
-Definition three_forms (a : fixarr) (s : shape) (inds : list nat)
-  : option ((unit + list bool) * (unit + list bool) * list (option (unit + bool))) :=
-  if wf_fixarr a && inds_ok (fa_len a) inds then
-    obind (array_intersects a s None) (fun r1 =>
-    obind (array_intersects a s (Some inds)) (fun r2 =>
-    obind (all_some (map (element_intersects a s) (seq 0 (fa_len a)))) (fun r3 =>
-      Some (out_sum r1, out_sum r2,
-            map (fun o => match o with Some v => Some (out_sum v) | None => None end) r3))))
-  else None.
